@@ -54,7 +54,7 @@ def rand_op(rng, names_in, all_names, pool, wind):
         return dict(op="remove", name=rng.choice(names_in + ["ghost"]))
     name = rng.choice(names_in)
     if k < 0.40:
-        mode = rng.choice(["vel_only", "vel_only", "pose", "position_only", "tiny_pose", "full", "rates_only"])
+        mode = rng.choice(["vel_only", "vel_only", "pose", "position_only", "tiny_pose", "full", "rates_only", "rejected"])
         return dict(op="set_state", name=name, mode=mode, V=round(rng.uniform(40, 120), 2), alpha=round(rng.uniform(-4, 8), 2),
                     beta=round(rng.uniform(-5, 5), 2), dp=[rng.uniform(-50, 50), rng.uniform(-50, 50), rng.uniform(-50, 50)],
                     E=[rng.uniform(-60, 60), rng.uniform(-30, 30), rng.uniform(-170, 170)])
@@ -92,6 +92,10 @@ def state_for(sc, o, MX):
         st["angular_rates"] = [x + d for x, d in zip(cur["angular_rates"], (0.3, -0.1, 0.05))]
     elif o["mode"] == "full":
         st = {"velocity": o["V"], "alpha": o["alpha"], "beta": o["beta"]}      # everything else back to the defaults
+    elif o["mode"] == "rejected":
+        # a contradictory description (velocity vector together with alpha) at a new place and attitude: documented to be rejected; a
+        # rejected call is one more public call of the history and must leave the scene as it was
+        st = {"velocity": [o["V"], 0.0, 5.0], "alpha": o["alpha"], "position": [c + d for c, d in zip(cur["position"], o["dp"])], "orientation": o["E"]}
     return st
 
 
@@ -196,6 +200,9 @@ def run_history(MX, ops, pool, compare=True, sd=SD):
         before, twin = None, None
         if compare and o["op"] in NO_CHANGE and sc._airplanes:
             before = {n: raw_state(sc, n) for n in sc._airplanes}
+        rejected_before = None
+        if compare and o["op"] == "set_state" and o.get("mode") == "rejected" and o["name"] in sc._airplanes:
+            rejected_before = ({n: raw_state(sc, n) for n in sc._airplanes}, bool(sc._solved))
         if compare and o["op"] == "set_state" and o["name"] in sc._airplanes:
             # what the same dictionary gives on an aircraft that has no history (its own scene: set_aircraft_state looks at nothing else)
             try:
@@ -204,6 +211,13 @@ def run_history(MX, ops, pool, compare=True, sd=SD):
             except Exception as e:
                 twin = None
         got = apply_op(sc, o, pool, names_ids, MX)
+        if rejected_before is not None:
+            if got[1] is None:
+                return trace, dict(step=i, op=o, what="contradictory-state-accepted")
+            after = {n: raw_state(sc, n) for n in sc._airplanes}
+            bad = api.compare(after, rejected_before[0], rtol=0, atol=0)
+            if bad or bool(sc._solved) != rejected_before[1]:
+                return trace, dict(step=i, op=o, what="rejected-call-changed-the-state", differences=bad[:6], solved_flag=[rejected_before[1], bool(sc._solved)])
         if before is not None and got[1] is None:       # a call that raised (diverging trim ...) promises nothing about the state it leaves
             after = {n: raw_state(sc, n) for n in sc._airplanes}
             bad = api.compare(after, before, rtol=1e-9, atol=1e-9)
@@ -263,6 +277,8 @@ def coq_ops(ops, trace_tokens):
             out.append("AddAircraft (mk_ac %d %d %d %d %d)" % (n, o["ac"], tk["pose"], tk["vel"], tk["ctrl"]))
         elif k == "remove":
             out.append("RemoveAircraft %d" % n)
+        elif k == "set_state" and o.get("mode") == "rejected":
+            out.append("SetState 0 0 0")       # the model's rejected call: no aircraft is called 0, the step reports an error and changes nothing
         elif k == "set_state":
             out.append("SetState %d %d %d" % (n, tk["pose"], tk["vel"]))
         elif k == "set_controls":
@@ -333,6 +349,12 @@ def check_caller_arrays(chk, MX, pool):
         pos = np.array([0.0, 0.0, -1000.0 - 500.0 * k])
         rates = np.array([0.02, -0.01 * k, 0.03])
         st = {"velocity": 90.0 + 5.0 * k, "alpha": 2.0 + 0.5 * k, "position": pos, "angular_rates": rates}
+        quat = None
+        if k % 2 == 1:
+            # the attitude as a unit quaternion in the caller's own array (a time-stepping loop updates it in place and hands it over again)
+            b0 = math.radians(10.0 + 5.0 * k)
+            quat = np.array([math.cos(0.5 * b0), math.sin(0.5 * b0), 0.0, 0.0])
+            st["orientation"] = quat
         rep = dict(kind="caller-arrays", scene=sd, aircraft=ac, state={n: (v.tolist() if isinstance(v, np.ndarray) else v) for n, v in st.items()}, k=k)
         chk.case(dict(kind="caller-arrays", k=k), nontrivial=True)
         chk.count("op=caller-arrays")
@@ -344,6 +366,12 @@ def check_caller_arrays(chk, MX, pool):
             new_pos, new_rates = [50.0, -20.0, -30000.0 + 1000.0 * k], [0.2, 0.1, -0.15]
             pos[:] = new_pos
             rates[:] = new_rates
+            new_quat = None
+            if quat is not None:
+                b1, h1 = math.radians(35.0 + 5.0 * k), math.radians(40.0)
+                new_quat = [math.cos(0.5 * h1) * math.cos(0.5 * b1), math.cos(0.5 * h1) * math.sin(0.5 * b1), math.sin(0.5 * h1) * math.sin(0.5 * b1),
+                            math.sin(0.5 * h1) * math.cos(0.5 * b1)]
+                quat[:] = new_quat
             again = api.solve(sc)
             bad = api.compare(again, first, rtol=1e-12, atol=1e-12)
             if bad:
@@ -354,7 +382,7 @@ def check_caller_arrays(chk, MX, pool):
             sc.set_aircraft_state(state=st, aircraft="A")
             got = api.solve(sc)
             fr = MX.Scene(copy.deepcopy(sd))
-            fr.add_aircraft("A", copy.deepcopy(ac), state=dict(st, position=list(new_pos), angular_rates=list(new_rates)))
+            fr.add_aircraft("A", copy.deepcopy(ac), state=dict(st, position=list(new_pos), angular_rates=list(new_rates), **({"orientation": list(new_quat)} if new_quat else {})))
             bad = api.compare(got, api.solve(fr), rtol=2e-6, atol=2e-7)
             if bad:
                 chk.violation("caller-arrays:same-dictionary-again", dict(rep, what="set_aircraft_state with the caller's (updated) arrays gives results of the earlier position / rates",
